@@ -141,8 +141,9 @@ def _check_second_order(out, comp, sig, rots, tag):
     Kref = _dense(eff)
     pd = bool(np.all(np.linalg.eigvalsh(Kref) > 1e-9))
     desc = {"signature": sig, "components": {k: arr[k].tolist() for k in given}}
+    args = {k: arr[k].copy() for k in given}
     try:
-        T = pp.SecondOrderTensor(**{k: arr[k].copy() for k in given})
+        T = pp.SecondOrderTensor(**args)
     except ValueError as e:
         if pd:
             out.violate("SecondOrderTensor constructor rejected a positive definite tensor", error=repr(e), **desc)
@@ -172,6 +173,10 @@ def _check_second_order(out, comp, sig, rots, tag):
             out.violate(f"stored component {k} differs from the argument", values=V, **desc)
             out.ev("VIOLATION")
             return
+    if any(not np.array_equal(args[k], arr[k]) for k in given) or any(np.shares_memory(args[k], V) for k in given):
+        out.violate("SecondOrderTensor constructor modified or aliases its argument arrays", **desc)
+        out.ev("VIOLATION")
+        return
     K0 = V.transpose((2, 0, 1)).copy()  # (nc, 3, 3) as built
     iso = all(np.allclose(K0[c], K0[c][0, 0] * np.eye(3)) for c in range(nc))
     out.ev(f"{tag}/built/{'iso' if iso else 'aniso'}")
@@ -181,8 +186,11 @@ def _check_second_order(out, comp, sig, rots, tag):
     # --- rotate
     for ir, R in enumerate(rots):
         Tr = T.copy()
+        Rin = R.copy()
         try:
-            Tr.rotate(R.copy())
+            Tr.rotate(Rin)
+            if not np.array_equal(Rin, R):
+                raise AssertionError("rotate modified the rotation matrix")
         except Exception as e:
             out.violate("rotate raised", error=repr(e), R=R, **desc)
             out.ev("VIOLATION")
@@ -293,7 +301,10 @@ def _check_restrict_copy(out, T, ref, fields, nc, tag, desc, keybase):
         idx = np.where(cells)[0] if form == "mask" else cells
         before = {k: v.copy() for k, v in _public_arrays(T, fields).items()}
         try:
-            Rr = T.restrict_to_cells(cells.copy())
+            cin = cells.copy()
+            Rr = T.restrict_to_cells(cin)
+            if not np.array_equal(cin, cells):
+                raise AssertionError("restrict_to_cells modified the cell selection")
         except Exception as e:
             out.violate("restrict_to_cells raised", error=repr(e), cells=sel, **desc)
             out.ev("VIOLATION")
